@@ -17,7 +17,7 @@ def run(module, impl, case, args):
     except Exception as e:  # noqa
         traceback.print_exc()
         r = 'exception:%s|%s' % (type(e).__name__, e)
-    return r or ''
+    return '' if (not r or r == '~') else r
 
 
 def main():
